@@ -49,7 +49,8 @@ let objects = List.map ostr_of D.d_objects
 let wiring_names = List.map (fun (i, n) -> (int_of_nat i, ostr_of n)) D.d_wiring
 let types = List.map (fun (t, l) -> (ostr_of t, l)) D.d_types
 
-type cse = { cn : D.cls -> D.string; wiring : (D.nat * D.cls) list; t0 : D.trec; imem : D.inst -> D.nat -> bool;
+type cse = { cn : D.cls -> D.string; wiring : (D.nat * D.cls) list; mutable t0 : D.trec; imem : D.inst -> D.nat -> bool;
+             decls : (D.trec * int array) array; cur_masks : int array ref;      (* life cycle: op D<k> *)
              t2 : D.trec; imem2 : D.inst -> D.nat -> bool;      (* the second type of '~' elements *)
              ttype : D.trec option;      (* the record of the builtin type Type (None: the case's own type IS Type) *)
              cast_id : int; threads : string list list; seed : int }
@@ -66,22 +67,25 @@ let parse_case line : cse =
     let wiring = if nocache then [] else
         List.filter_map (fun (slot, n) -> let i = find_at n in
                           if i < 0 then None else Some (nat_of_int slot, nat_of_int i)) wiring_names in
-    let dl = List.map (fun s -> match String.split_on_char ':' s with
-        | [ c; m ] -> (int_of_string c, int_of_string m) | _ -> failwith "bad decl") (split_on ',' (if decl = "-" then "" else decl)) in
-    let masks = Array.of_list (List.map snd dl) in
+    let parse_decl d = List.map (fun s -> match String.split_on_char ':' s with
+        | [ c; m ] -> (int_of_string c, int_of_string m) | _ -> failwith "bad decl") (split_on ',' (if d = "-" then "" else d)) in
+    let decls = Array.of_list (List.map (fun d -> let dl = parse_decl d in
+        (D.cold_type cache_num (List.mapi (fun pos (c, _) -> (names.(c), nat_of_int pos)) dl), Array.of_list (List.map snd dl)))
+        (String.split_on_char ';' decl)) in
+    let t0, masks = decls.(0) in
+    let cur_masks = ref masks in
     let imem i m = let i = int_of_nat i and m = int_of_nat m in
-      i < Array.length masks && m < 3 && (masks.(i) lsr m) land 1 = 1 in
-    let t0 = D.cold_type cache_num (List.mapi (fun pos (c, _) -> (names.(c), nat_of_int pos)) dl) in
+      i < Array.length !cur_masks && m < 3 && (!cur_masks.(i) lsr m) land 1 = 1 in
     let imem2 i m = let i = int_of_nat i and m = int_of_nat m in
       i < Array.length masks && m < 3 && ((masks.(i) lxor 5) lsr m) land 1 = 1 in
     let type_decl = List.mapi (fun pos (n, _) -> (n, nat_of_int pos)) (List.assoc "Type" types) in
-    { cn; wiring; t0; imem; t2 = t0; imem2; ttype = Some (D.cold_type cache_num type_decl); cast_id = find_at "Cast";
+    { cn; wiring; t0; imem; decls; cur_masks; t2 = t0; imem2; ttype = Some (D.cold_type cache_num type_decl); cast_id = find_at "Cast";
       threads = List.map words (String.split_on_char '/' ops); seed = int_of_string seed }
   | [ "B"; tname; _; ops; seed ] ->
     let insts = List.assoc tname types in
     let rec idx n = function [] -> -1 | x :: r -> if x = "Cast" then n else idx (n + 1) r in
     { cn = D.cn_of D.d_objects; wiring = (if nocache then [] else D.wiring_ids D.d_objects D.d_wiring);
-      t0 = D.cold_type cache_num (D.builtin_decl insts); imem = D.builtin_imem insts;
+      t0 = D.cold_type cache_num (D.builtin_decl insts); imem = D.builtin_imem insts; decls = [||]; cur_masks = ref [||];
       t2 = (let i2 = List.assoc (if tname = "Int" then "Float" else "Int") types in D.cold_type cache_num (D.builtin_decl i2));
       imem2 = D.builtin_imem (List.assoc (if tname = "Int" then "Float" else "Int") types);
       ttype = (if tname = "Type" then None else Some (D.cold_type cache_num (D.builtin_decl (List.assoc "Type" types))));
@@ -95,9 +99,9 @@ let parse_op cs tok =
   match l with
   | 'c' -> (D.KInstance, cs.cast_id, 0, l, rest)
   | 'i' | 'o' -> (D.KInstance, int_of_string rest, 0, l, "")
-  | 'p' | 'q' -> (D.KScan, int_of_string rest, 0, l, "")
+  | 'p' | 'q' -> ((if D.d_implements_cached then D.KInstance else D.KScan), int_of_string rest, 0, l, "")
   | _ -> (match String.split_on_char '.' rest with
-      | [ c; k ] -> ((match l with 'm' | 'n' | 'M' | 'Y' -> D.KInstance | _ -> D.KScan), int_of_string c, int_of_string k, l, "")
+      | [ c; k ] -> ((match l with 'm' | 'n' | 'M' | 'Y' -> D.KInstance | _ -> if D.d_implements_method_cached then D.KInstance else D.KScan), int_of_string c, int_of_string k, l, "")
       | _ -> failwith ("bad op " ^ tok))
 
 let vstr = function None -> "-" | Some i -> string_of_int (int_of_nat i)
@@ -164,7 +168,12 @@ let () =
              let ttr = ref (match cs.ttype with Some tt -> tt | None -> cs.t0) in
              let _ = List.fold_left (fun (t, first) tok ->
                  if not first then Buffer.add_char buf ' ';
-                 if tok = "z" then begin                      (* the harness makes the record cold again *)
+                 if tok.[0] = 'D' then begin                  (* delete the type, build the k-th declaration: a fresh, cold type *)
+                   let k = int_of_string (String.sub tok 1 (String.length tok - 1)) in
+                   let (tk, mk) = cs.decls.(k) in
+                   cs.t0 <- tk; cs.cur_masks := mk;
+                   Buffer.add_string buf (if mode = "spec" then tok ^ "=new" else tok ^ "=new" ^ dump tk); (tk, false)
+                 end else if tok = "z" then begin                      (* the harness makes the record cold again *)
                    Buffer.add_string buf (if mode = "spec" then "z=cold" else "z=cold" ^ dump cs.t0); (cs.t0, false)
                  end else if tok = "w" then begin             (* type_of(a type object) is Type *)
                    Buffer.add_string buf (if mode = "spec" then "w=Type" else "w=Type" ^ dump t); (t, false)
@@ -176,17 +185,17 @@ let () =
                  end else if tok.[0] = 't' || tok.[0] = 'u' then begin
                    (* instance(T, c) / implements(T, c) with the type object as OBJECT: a lookup on Type's record *)
                    let c = nat_of_int (int_of_string (String.sub tok 1 (String.length tok - 1))) in
-                   let kind = if tok.[0] = 't' then D.KInstance else D.KScan in
+                   let kind = if tok.[0] = 't' || D.d_implements_cached then D.KInstance else D.KScan in
                    let show v = if tok.[0] = 't' then vstr v else if v = None then "0" else "1" in
                    if mode = "spec" then begin
                      let trips = (match cs.ttype with Some tt -> tt.D.trips | None -> cs.t0.D.trips) in
                      Buffer.add_string buf (tok ^ "=" ^ show (D.spec_lookup cs.cn trips c)); (t, false)
                    end else
                      match cs.ttype with
-                     | None -> (match D.lookup cs.cn cs.wiring kind c t with
+                     | None -> (match D.lookup cs.cn cs.wiring D.d_skipnull D.d_reread kind c t with
                          | D.ROk (t', v) -> Buffer.add_string buf (tok ^ "=" ^ show v ^ dump t'); (t', false)
                          | _ -> Buffer.add_string buf (tok ^ "=CORRUPT"); (t, false))
-                     | Some _ -> (match D.lookup cs.cn cs.wiring kind c !ttr with
+                     | Some _ -> (match D.lookup cs.cn cs.wiring D.d_skipnull D.d_reread kind c !ttr with
                          | D.ROk (t', v) -> ttr := t'; Buffer.add_string buf (tok ^ "=" ^ show v ^ dump t); (t, false)
                          | _ -> Buffer.add_string buf (tok ^ "=CORRUPT"); (t, false))
                  end else if tok.[0] = 'S' then begin
@@ -196,7 +205,7 @@ let () =
                    end else begin
                      let tr = ref t and bad = ref false in
                      let r = seq_result cs (fun second c ->
-                         match D.lookup cs.cn cs.wiring D.KInstance (nat_of_int c) (if second then !t2 else !tr) with
+                         match D.lookup cs.cn cs.wiring D.d_skipnull D.d_reread D.KInstance (nat_of_int c) (if second then !t2 else !tr) with
                          | D.ROk (t', v) -> (if second then t2 := t' else tr := t'); v
                          | _ -> bad := true; None) tok in
                      Buffer.add_string buf (tok ^ "=" ^ (if !bad then "CORRUPT" else r) ^ dump !tr);
@@ -208,7 +217,7 @@ let () =
                  if mode = "spec" then begin
                    Buffer.add_string buf (tok ^ "=" ^ result cs (l, m, rest) (D.spec_lookup cs.cn cs.t0.D.trips (nat_of_int c))); (t, false)
                  end else
-                   match D.lookup cs.cn cs.wiring k (nat_of_int c) t with
+                   match D.lookup cs.cn cs.wiring D.d_skipnull D.d_reread k (nat_of_int c) t with
                    | D.ROk (t', v) ->
                      Buffer.add_string buf (tok ^ "=" ^ result cs (l, m, rest) v ^ dump t');
                      if not (D.check_inv cs.cn cs.wiring t') then ok := false;
@@ -238,7 +247,7 @@ let () =
                  let burst = 1 + (if next () mod 4 = 0 then next () mod 40 else next () mod 3) in
                  for _ = 1 to burst do
                    if not !corrupt then
-                     match D.sys_step cs.cn cs.wiring !st (nat_of_int tid) with
+                     match D.sys_step cs.cn cs.wiring D.d_skipnull D.d_reread !st (nat_of_int tid) with
                      | None -> corrupt := true
                      | Some s -> st := s; incr steps;
                        if (small || !steps land 255 = 0) && not (D.check_inv cs.cn cs.wiring (fst s)) then ok := false
